@@ -28,7 +28,7 @@ RULE = ("case = generated small enum with one of 7 visibilities (private, pub(in
 ENUM_VIS = [("pub", 3), ("pub(crate)", 2), ("pub(super)", 1), ("", 0), ("pub(in crate::outer)", 1),
             ("pub(in crate)", 2), ("pub(in crate::outer::def)", 0), ("pub(self)", 0)]
 PARAM_RANK = {"": 0, "pub(crate)": 2, "pub": 3}
-IDENTS = ["E", "MyEnum", "Ünï", "e_x", "Color", "T"]
+IDENTS = ["E", "MyEnum", "Ünï", "e_x", "Color", "T", "B", "F", "Item", "Iter"]
 
 PROFILE = S.profile(renames=0.1, dups=0.0, attrs=0.05, cfg_off=0.0, sizes=[("small", 100)], vis=["pub"], repr_cfg_attr=0.0)
 
